@@ -64,6 +64,25 @@ Theorem C17_not_found :
 Proof. exact spec_not_found. Qed.
 Print Assumptions C17_not_found.
 
+(* CreateTable and Reset, as read from the current manager.go: the only registry write of
+   CreateTable comes after the engine's CreateTable succeeded and uses the table's id; Reset
+   empties the registry.  Hence creation behaves as the specification: *)
+Theorem C17_generated_create_reset : create_stores = [(true, true)] /\ reset_clears = true.
+Proof. exact generated_create_ok. Qed.
+Print Assumptions C17_generated_create_reset.
+
+Theorem C17_create_is_spec : forall (estate : Type) reg id ok (e : estate),
+  mcreate estate create_stores reg id ok e = spec_create estate reg id ok e.
+Proof. exact (fun estate => mcreate_is_spec estate). Qed.
+Print Assumptions C17_create_is_spec.
+
+(* a refused creation leaves no trace (the id still yields table-not-found, every other table is
+   untouched); a successful one registers exactly the new table *)
+Theorem C17_create_effect : forall (estate : Type) reg id ok (e : estate) id',
+  lookup estate (spec_create estate reg id ok e) id' = if ok && String.eqb id' id then Some e else lookup estate reg id'.
+Proof. exact (fun estate => spec_create_effect estate). Qed.
+Print Assumptions C17_create_effect.
+
 (* non-vacuity: a concrete engine (a counter per table), three tables, a close *)
 Example C17_example :
   let estep := fun (e : nat) (n : string) (a : list nat) => (e + List.length a + 1, e) in
